@@ -374,16 +374,33 @@ func (d *driver) runConcProgram(w emitter, pid int, line []byte) {
 	w.emit(ev{"ev": "fp", "prog": pid, "when": "before", "cfg": fpConfig(cfg), "pkg": fpPackage()})
 	// sequential pass (before the concurrent one, except for fresh-configuration programs)
 	seq := make([][][]int, K)
-	sequential := func() {
+	var seqReturned atomic.Int64
+	sequentialBody := func() {
 		for g := 0; g < K; g++ {
 			seq[g] = make([][]int, len(p.Calls))
 			for i := range p.Calls {
 				seq[g][i] = d.concCall(cfg, p.Calls[(i+g)%len(p.Calls)], g, i)
+				seqReturned.Add(1)
 			}
+		}
+	}
+	// the reference pass runs under the same watchdog: a call that blocks forever even when executed ALONE is reported as a hang
+	// (with goroutines 1 in the event) instead of stalling the driver until the runner's timeout
+	seqHung := false
+	sequential := func() {
+		if !stallWatchdog(sequentialBody, &seqReturned, 240*time.Second, 1800*time.Second) {
+			buf := make([]byte, 1<<16)
+			n := runtime.Stack(buf, true)
+			w.emit(ev{"ev": "hang", "prog": pid, "k": 1, "gomaxprocs": p.GMP, "envgmp": p.EnvGMP, "returned": int(seqReturned.Load()), "of": K * len(p.Calls), "stacks": string(buf[:n])})
+			concDead = true
+			seqHung = true
 		}
 	}
 	if !p.Fresh {
 		sequential()
+		if seqHung {
+			return
+		}
 	}
 	// per-position barriers for fresh programs: every goroutine starts position i at the same moment
 	bars := make([]sync.WaitGroup, len(p.Calls))
@@ -431,6 +448,9 @@ func (d *driver) runConcProgram(w emitter, pid int, line []byte) {
 	}
 	if p.Fresh {
 		sequential()
+		if seqHung {
+			return
+		}
 	}
 	for g := 0; g < K; g++ {
 		if panics[g] != "" {
